@@ -62,6 +62,34 @@ Theorem c16_errors_do_not_stop_sinks : forall cs f,
 Proof. intros cs f H. split; [exact (immediate_result_independent cs f H) | exact (tee_result_independent cs f H)]. Qed.
 Print Assumptions c16_errors_do_not_stop_sinks.
 
+(* The background queue (the family's transition system, Queue/Model.v): the stream's answers never change what is
+   delivered — two schedules that differ only in the stream's results deliver the same entries in the same order and
+   leave the same queue; a schedule stays executable whatever the stream answers; and drop(join handle) returns only
+   after everything appended before it was handed to the stream (or displaced), for every reachable state, i.e. also
+   when the entries around and inside the shutdown drain fail. *)
+From MV Require Queue.Model Queue.Spec Queue.Isolation Queue.Shutdown.
+Theorem c16_queue_errors_isolated : forall c ls1 ls2 s1 s2,
+  map Queue.Isolation.erase_l ls1 = map Queue.Isolation.erase_l ls2 ->
+  Queue.Model.run c Queue.Model.init ls1 = Some s1 -> Queue.Model.run c Queue.Model.init ls2 = Some s2 ->
+  Queue.Model.nexts (Queue.Model.out (Queue.Model.gh s1)) = Queue.Model.nexts (Queue.Model.out (Queue.Model.gh s2)) /\
+  Queue.Model.sh s1 = Queue.Model.sh s2 /\ Queue.Model.wr s1 = Queue.Model.wr s2.
+Proof.
+  intros c ls1 ls2 s1 s2 H R1 R2. destruct (Queue.Isolation.errors_isolated c ls1 ls2 s1 s2 H R1 R2) as (A & _ & B & C & _).
+  repeat split; assumption.
+Qed.
+Print Assumptions c16_queue_errors_isolated.
+
+Theorem c16_queue_results_do_not_block : forall c ls s,
+  Queue.Model.run c Queue.Model.init ls = Some s ->
+  exists s', Queue.Model.run c Queue.Model.init (map Queue.Isolation.erase_l ls) = Some s'.
+Proof. exact Queue.Isolation.results_do_not_block. Qed.
+Print Assumptions c16_queue_results_do_not_block.
+
+(* the observation compared for the queue scenarios is "every entry once, in order" *)
+Theorem c16_background_exactly_once : forall cs, nexts_of 0 (background cs) = map sc_id cs.
+Proof. induction cs as [|c r IH]; cbn; [reflexivity | f_equal; exact IH]. Qed.
+Print Assumptions c16_background_exactly_once.
+
 Example c16_example_short_write :
   write_all_vectored [Accept 2; Interrupted; Accept 1] [[1; 2; 3]; []; [4; 5]]%N [] = ([], [1; 2; 3; 4; 5]%N, WOk).
 Proof. vm_compute. reflexivity. Qed.
